@@ -309,6 +309,21 @@ def run(ctx):
         if k < 2:
             ctx.sample({'symmetry': sym, 'x': describe(x), 'perm': perm, 'axis': axis})
 
+        # ---- BlockVector.to_dense: ascending charge order whatever the insertion order of the blocks (the order of an array's axis)
+        try:
+            tabv = sorted(gen.rand_chargemap(rng, sym).items())
+            order = list(tabv); rng.shuffle(order)
+            vv = sr.BlockVector({c: gen.rand_data(rng, (d,), cplx, -3, 3) for c, d in order})
+            ctx.count()
+            gotv = np.asarray(vv.to_dense())
+            wantv = vec_dense(vv, tabv)
+            if gotv.shape != wantv.shape or not np.array_equal(gotv, wantv):
+                found.append({'op': 'BlockVector.to_dense', 'symmetry': sym, 'insertion_order': [str(c) for c, _ in order],
+                              'got_dense': gotv.tolist(), 'expected_dense': wantv.tolist(), 'error': 'blocks are not laid out in ascending charge order'})
+            if [c for c, _ in order] != [c for c, _ in tabv]:
+                ctx.nontrivial(('vec_to_dense', sym, str(order)))
+        except Exception as ex:
+            raised['vec_to_dense'] = raised.get('vec_to_dense', 0) + 1
         # ---- block vectors: arithmetic and elementwise functions
         tab2 = sorted(gen.rand_chargemap(rng, sym).items())
         v1 = sr.BlockVector({c: gen.rand_data(rng, (d,), cplx, 1, 4) for c, d in tab2 if rng.random() < 0.8})
